@@ -30,8 +30,14 @@ ASSUMPTIONS = [
     "theorems that mention the client assume only what a Go client cannot violate: Version answers carry the key asked for "
     "(version_faithful), Versions answers the package asked for (versions_faithful), and no client error is one of the "
     "resolver's private sentinels errNoMatch / errIncompatible (version_errs_sane, client_sane)",
-    "theorems are stated for resolutions that return a graph (resolve fuel root = Ok g); no fuel bound is proved "
-    "(an arbitrary client can return infinitely many distinct versions)",
+    "the clause theorems are stated for resolutions that return a graph (resolve fuel root = Ok g); C07_resolve_total "
+    "proves that with fuel >= S (length U) the model returns a graph or an error (no Panic, no OutOfFuel) for every "
+    "client whose answers are values or plain errors (a panicking client makes Resolve panic) and mention only the "
+    "version keys of the finite list U; for table clients both hypotheses are decided on the table and checked on "
+    "every 4th recorded table, together with the run at exactly the proved bound",
+    "panic sites of the Go code that the model represents by total operations (map writes after make, guarded "
+    "indexing todo[0] / requirements[0] / versions[idx] / fields[0..1], AddEdge/AddError returning errors) are "
+    "argued by inspection and observed (no panic in any run), not proved about the Go source",
 ]
 
 MANIFEST = dict(
@@ -809,6 +815,25 @@ def run_universes(ctx, universes, label):
         cases.append(sx([[MAVEN, root[0], CONCRETE, root[1]], table]))
     live = [c for c in cases if c is not None]
     impl2, model = ctx.correspond("maven", live, label=label, compare=same_obs)
+    # hypotheses of the theorems, decided by the model on the recorded tables (every 4th case): answers are values
+    # or plain errors (tb_plain), Version answers carry the key asked for, Versions answers the package asked for;
+    # and the resolution with exactly the proved fuel bound tb_fuel gives the same result as with the large fuel
+    hyp_cases = live[::4]
+    for c, hline, mline in zip(hyp_cases, ctx.model("maven_hyp", hyp_cases), model[::4]):
+        try:
+            h = parse_sx(hline)
+            flags, bound, res = h[:3], h[3], h[4]
+        except Exception:
+            ctx.violation("model could not decide the theorem hypotheses on a recorded table", {"case": c}, observed=hline)
+            continue
+        ctx.count("hypotheses_checked")
+        ctx.extra["max_fuel_bound"] = max(ctx.extra.get("max_fuel_bound", 0), bound)
+        if flags != [1, 1, 1]:
+            ctx.violation("a recorded client table violates a hypothesis of the C07 theorems "
+                          "(plain answers, faithful Version answers, faithful Versions answers)", {"case": c}, observed=sx(flags))
+        if norm_obs(sx(res)) != norm_obs(mline) and '"oom"' not in mline:
+            ctx.violation("the resolution with the proved fuel bound differs from the resolution with large fuel",
+                          {"case": c, "bound": bound}, observed=sx(res), required=mline)
     it = iter(zip(impl2, model))
     pending = []
     for (ui, root), p, c in zip(metas, parsed, cases):
